@@ -377,6 +377,7 @@ def make_bank(rng, quick):
         # they look like, they are reported as they are
         gen.spice(rng, bank[-1], ['pos-decorated', 'pos-punct-char',
                                   'pos-apostrophe', 'cat-keyword',
+                                  'pos-keyword', 'word-equals-tag',
                                   'cat-apostrophe', 'cat-punct-char'])
     return bank
 
